@@ -169,6 +169,17 @@ pub fn run_case(_ctx: &Ctx, case: &Value, tag: usize, rep: &mut Report, mb: &mut
         mb.push(format!("eng init {tag} {} {}", ws.join(","), w.eos), "ok".into(), tag);
         rep.count("cases.with_model");
     }
+    // every other grammar of the M5 fragment (Lark, JSON; non-canonical worlds): the Lean token-level engine over
+    // the byte-level engine model M5 must produce the same masks as the implementation's speculative trie walk
+    let mut has_elx = false;
+    if !has_model && !canonical {
+        if let Some((id, _)) = crate::lx::define_model(&m, tag, rep, mb) {
+            let ws: Vec<String> = w.words.iter().map(|x| hex_or_underscore(x)).collect();
+            mb.push(format!("elx init {id} {} {}", ws.join(","), w.eos), "ok".into(), tag);
+            has_elx = true;
+            rep.count("cases.with_lexer_model");
+        }
+    }
     let mut toks: Vec<u32> = vec![];
     for step in 0..steps {
         if m.is_stopped() || m.is_error() {
@@ -204,6 +215,10 @@ pub fn run_case(_ctx: &Ctx, case: &Value, tag: usize, rep: &mut Report, mb: &mut
                 mb.push(format!("eng commit {t_bad}"), if r { "ok".into() } else { "err".into() }, tag);
             }
         }
+        if has_elx {
+            mb.push("elx mask".into(), format!("ok {}", show_list(&mask)), tag);
+            rep.count("states.mask_vs_lexer_model");
+        }
         let non_eos: Vec<u32> = mask.iter().copied().filter(|t| *t != w.eos).collect();
         if mask.is_empty() {
             break;
@@ -221,6 +236,9 @@ pub fn run_case(_ctx: &Ctx, case: &Value, tag: usize, rep: &mut Report, mb: &mut
         toks.push(t);
         if has_model {
             mb.push(format!("eng commit {t}"), "ok".into(), tag);
+        }
+        if has_elx {
+            mb.push(format!("elx commit {t}"), "ok".into(), tag);
         }
     }
     rep.sample(json!({"grammar": case["grammar"], "vocab": w.vocab_size(), "tokens": toks.iter().take(20).collect::<Vec<_>>(), "model": has_model}));
